@@ -214,7 +214,11 @@ pub fn use_is_loading_global() -> bool {
     if let Some(global) = try_use_context::<AllTasksRemaining>() {
         global
             .all_tasks_remaining
-            .with(|vec| vec.iter().any(|signal| signal.get() > 0))
+            // The counters of suspense scopes that have been disposed are still listed.
+            .with(|vec| {
+                vec.iter()
+                    .any(|signal| signal.is_alive() && signal.get() > 0)
+            })
     } else {
         false
     }
